@@ -111,7 +111,7 @@ func checkWireToken(c *mon.Ctx, g *model.Gen, w *refcbor.Node, sig string) {
 }
 
 func runC04(c *mon.Ctx) {
-	c.Rule("tokens are assembled by the harness's own CBOR encoder: a valid / rule-breaking abstract claims-set of either profile, then 0-3 wire-level edits (known key := null / undefined / bool / ints at every width boundary / floats / bstr / tstr / array of small ints / array / map / tag; key deleted; unknown int and text keys with nested junk; key order permuted; duplicate key; tagged value; non-minimal and indefinite encodings; keys of the other profile; profile selector unknown / P1 name / OID; one-element nonce array; flag != 1; component := null / wrong type / unknown field / field of wrong type). The independent reader gives ACCEPT / REJECT / NO-VERDICT; the library must agree on ACCEPT and REJECT, and for every accepted token every getter whose wire value is unambiguous must return exactly that value. Also every (known key x special value) single edit exhaustively. distinct_nontrivial = distinct edit-class signatures")
+	c.Rule("tokens are assembled by the harness's own CBOR encoder: a valid / rule-breaking abstract claims-set of either profile, then 0-3 wire-level edits (known key := null / undefined / bool / ints at every width boundary / floats / bstr / tstr / array of small ints / array / map / tag; key deleted; unknown int and text keys with nested junk; key order permuted; duplicate key; tagged value; non-minimal and indefinite encodings; keys of the other profile; profile selector unknown / P1 name / OID; one-element nonce array; flag != 1; component := null / wrong type / unknown field / field of wrong type). The independent reader gives ACCEPT / REJECT / NO-VERDICT; the library must agree on ACCEPT and REJECT, and for every accepted token every getter whose wire value is unambiguous must return exactly that value. Also every (known key x special value) single edit exhaustively, and conformant tokens with 5..1000 (thorough: ..65537) software components. distinct_nontrivial = distinct edit-class signatures")
 	g := model.NewGen(c.Seed*4049 + int64(c.Shard))
 	// exhaustive singles: every known key x a pool of special values
 	idx := 0
@@ -144,6 +144,30 @@ func runC04(c *mon.Ctx) {
 				c.Count("single-edit-cases")
 				checkWireToken(c, g, w, sig)
 			}
+		}
+	}
+	// conformant tokens with many software components (array-header and
+	// library-limit boundaries): must be accepted with every getter faithful
+	counts := []int{5, 15, 16, 17, 22, 23, 24, 25, 31, 32, 33, 63, 64, 65, 127, 128, 129, 254, 255, 256, 257, 1000}
+	if !c.Quick() {
+		counts = append(counts, 4095, 4096, 4097, 65535, 65536, 65537)
+	}
+	for ci, nc := range counts {
+		for p := 1; p <= 2; p++ {
+			idx++
+			if !c.Mine(idx) {
+				continue
+			}
+			a := g.Valid(p)
+			a.HasComps, a.NoMeas, a.Comps = true, nil, nil
+			for j := 0; j < nc; j++ {
+				a.Comps = append(a.Comps, g.ValidComp())
+			}
+			sig := fmt.Sprintf("P%d|component-count|%d", p, nc)
+			c.Sig(sig)
+			c.Count("many-component-tokens")
+			checkWireToken(c, g, a.WireCBOR(), sig)
+			_ = ci
 		}
 	}
 	n := c.N(300000, 8000000)
